@@ -237,7 +237,7 @@ func (o *Oracle) Feed(rec *Record) {
 		delete(o.pending, ev.N)
 	}
 	// ---- hand-out: the Ready's committed entries / snapshot reach the application ("publish") ----
-	if ev.K == "ready" && strings.HasPrefix(rec.Sub, "publish") && o.pending[ev.N] != nil {
+	if ev.K == "ready" && hasStage(rec.Sub, "publish") && o.pending[ev.N] != nil {
 		t := o.track(ev.N)
 		rd := o.pending[ev.N]
 		delete(o.pending, ev.N)
@@ -391,4 +391,13 @@ func (o *Oracle) Feed(rec *Record) {
 			o.S.VoteReqToLearner++
 		}
 	}
+}
+
+func hasStage(sub, st string) bool {
+	for _, x := range strings.Split(sub, ",") {
+		if x == st {
+			return true
+		}
+	}
+	return false
 }
